@@ -6,12 +6,14 @@ package main
 // what is recorded and judged is what the client did.
 
 import (
+	"bytes"
 	"encoding/binary"
 	"errors"
 	"fmt"
 	"io"
 	"net"
 	"os"
+	"path/filepath"
 	"sort"
 	"strings"
 	"sync/atomic"
@@ -816,6 +818,30 @@ func (h *hist) rewrite(f func(m map[uint][]byte)) {
 	h.store.syncFS()
 	h.rewrote = h.store.snapshot()
 	h.nontriv = true
+	if h.store.fsDir != "" {
+		// leftovers of interrupted saves, for the keys the client is likely to write next
+		keys := []uint{0x8000, 0xc000}
+		for k := range h.rewrote {
+			if k >= 0x8000 && k < 0x10000 {
+				space := k & 0xc000
+				keys = append(keys, space|(k+1)&0x3fff, space|(k+2)&0x3fff, k)
+			} else if k >= 0x10000 {
+				keys = append(keys, k)
+			}
+		}
+		spoolLeftovers(h.store.fsDir, keys)
+		h.stats["spool-leftovers"]++
+	}
+}
+
+// spoolLeftovers plants what a process stopped inside FileSystem's Save leaves behind: a
+// <key>.spool file (here longer than any record of the histories). The store has to ignore
+// these files in List and Load and to replace them on the next Save of the key.
+func spoolLeftovers(dir string, keys []uint) {
+	junk := bytes.Repeat([]byte("leftover of an interrupted save "), 40)
+	for _, k := range keys {
+		os.WriteFile(filepath.Join(dir, fmt.Sprintf("%05x.spool", k)), junk, 0o644)
+	}
 }
 
 // randomDamage alters, truncates or removes up to three records, or adds stray ones.
@@ -908,6 +934,10 @@ func newHist(r *rng, o seqOpts, stats map[string]int) (h *hist, initTerm string,
 		if dir, err := os.MkdirTemp(base, "fs-store-"); err == nil {
 			h.store.useFileSystem(dir)
 			stats["store:filesystem"]++
+			if r.chance(1, 2) {
+				spoolLeftovers(dir, []uint{0, 0x8000, 0x8001, 0xc000, 0xc001, 0x10001, 0x10002, 0x10007})
+				stats["spool-leftovers"]++
+			}
 		}
 	}
 	curHist.Store(h)
